@@ -378,6 +378,24 @@ impl<'a> G<'a> {
                 let args = self.gen_args(&f.params, depth - 1, false);
                 Expr::Call(Box::new(self.fn_ref(&f)), args)
             }
+            12 => {
+                // `x |> f(a)` where f takes exactly (a) and RETURNS the function x is piped into
+                let cands: Vec<FnDef> = self
+                    .fns
+                    .iter()
+                    .filter(|f| matches!(&f.ret, Ty::Fn(ps, r) if ps.len() == 1 && &**r == ty) && self.usable(f) && self.reachable_by_name(f) && f.params.iter().all(|p| p.label.is_none()))
+                    .cloned()
+                    .collect();
+                if cands.is_empty() {
+                    return self.gen_by_type(ty, depth);
+                }
+                let f = cands[self.r.below(cands.len())].clone();
+                let Ty::Fn(ps, _) = &f.ret else { unreachable!() };
+                let x = self.gen_expr(&ps[0].clone(), depth - 1);
+                let args: Vec<Arg> = f.params.iter().map(|p| Arg { label: None, value: self.gen_expr(&p.ty.clone(), depth - 1) }).collect();
+                self.feat("pipeline-into-call-returning-a-function");
+                Expr::Pipe(Box::new(x), Box::new(Expr::Call(Box::new(self.fn_ref(&f)), args)))
+            }
             5 | 6 => self.gen_case(ty, depth),
             7 => self.gen_block(ty, depth),
             8 => {
@@ -933,6 +951,15 @@ fn ty_to_expr(t: &Ty, adts: &[AdtDef], module: usize, accessors: &BTreeMap<usize
         if at == t {
             return TypeExpr::Named { module: None, name: plain(name), args: vec![] };
         }
+        // parametrised alias `Pairs<m>(a, b) = List(#(b, a))`: arguments in swapped order
+        if let Ty::List(e) = t {
+            if let Ty::Tuple(ts) = &**e {
+                if ts.len() == 2 {
+                    let gname = name.replace("Rows", "Pairs");
+                    return TypeExpr::Named { module: None, name: plain(&gname), args: vec![ty_to_expr(&ts[1], adts, module, accessors, alias), ty_to_expr(&ts[0], adts, module, accessors, alias)] };
+                }
+            }
+        }
     }
     let named = |n: &str, args: Vec<TypeExpr>| TypeExpr::Named { module: None, name: plain(n), args };
     match t {
@@ -1053,7 +1080,7 @@ pub fn generate(r: &mut Rng) -> TypedWorkspace {
             let mut used_labels: Vec<&str> = Vec::new();
             let mut used_names: Vec<String> = Vec::new();
             for _ in 0..np {
-                let ty = pick_ty(&mut g, 2);
+                let ty = if g.r.chance(1, 6) { Ty::List(Box::new(Ty::Tuple(vec![pick_ty(&mut g, 0), pick_ty(&mut g, 0)]))) } else { pick_ty(&mut g, 2) };
                 let label = if g.r.chance(1, 3) {
                     let l = labels[g.r.below(labels.len())];
                     if used_labels.contains(&l) {
@@ -1077,7 +1104,7 @@ pub fn generate(r: &mut Rng) -> TypedWorkspace {
             }
             // Gleam wants unlabelled parameters before labelled ones
             params.sort_by_key(|p: &ParamDef| p.label.is_some());
-            let ret = pick_ty(&mut g, 2);
+            let ret = if g.r.chance(1, 8) { Ty::Fn(vec![pick_ty(&mut g, 0)], Box::new(pick_ty(&mut g, 1))) } else { pick_ty(&mut g, 2) };
             let decl = next_decl;
             next_decl += 1;
             let ret_annotated = g.r.chance(1, 2);
@@ -1143,6 +1170,9 @@ pub fn generate(r: &mut Rng) -> TypedWorkspace {
         let alias_ty = Ty::List(Box::new(Ty::Tuple(vec![Ty::Int, Ty::Str])));
         let alias_name = format!("Rows{mi}");
         body_items.push(Item { attrs: vec![], doc: vec![], kind: ItemKind::Alias(Alias { public: true, name: plain(&alias_name), params: vec![], ty: ty_to_expr(&alias_ty, &adts, mi, &accessors, None) }) });
+        // a parametrised alias whose parameters appear in swapped order in its body
+        let galias_ty = Ty::List(Box::new(Ty::Tuple(vec![Ty::Var("b".into()), Ty::Var("a".into())])));
+        body_items.push(Item { attrs: vec![], doc: vec![], kind: ItemKind::Alias(Alias { public: true, name: plain(&format!("Pairs{mi}")), params: vec!["a".into(), "b".into()], ty: ty_to_expr(&galias_ty, &adts, mi, &accessors, None) }) });
         // functions
         let my_fns: Vec<FnDef> = fns.iter().filter(|f| f.module == mi).cloned().collect();
         for f in &my_fns {
@@ -1151,9 +1181,10 @@ pub fn generate(r: &mut Rng) -> TypedWorkspace {
             let mut forcing: Vec<Stmt> = Vec::new();
             for p in &f.params {
                 let id = g.bind(&p.name, &p.ty, if p.annotated { "parameter-annotated" } else { "parameter-forced-by-operator" });
-                let use_alias = p.ty == alias_ty;
+                let is_pairs = matches!(&p.ty, Ty::List(e) if matches!(&**e, Ty::Tuple(ts) if ts.len() == 2));
+                let use_alias = p.ty == alias_ty || (is_pairs && g.r.chance(2, 3));
                 if use_alias {
-                    g.feat("alias-in-annotation");
+                    g.feat(if p.ty == alias_ty { "alias-in-annotation" } else { "parametrised-alias-in-annotation" });
                 }
                 let ty = if p.annotated { Some(ty_to_expr(&p.ty, &adts, mi, &accessors, if use_alias { Some((&alias_ty, alias_name.as_str())) } else { None })) } else { None };
                 if !p.annotated {
@@ -1173,7 +1204,7 @@ pub fn generate(r: &mut Rng) -> TypedWorkspace {
             body.extend(g.gen_stmts(&f.ret, depth));
             crate::gen::normalise_stmts(&mut body);
             let annotate_ret = f.ret_annotated;
-            let ret = if annotate_ret { Some(ty_to_expr(&f.ret, &adts, mi, &accessors, if f.ret == alias_ty { Some((&alias_ty, alias_name.as_str())) } else { None })) } else { None };
+            let ret = if annotate_ret { Some(ty_to_expr(&f.ret, &adts, mi, &accessors, if f.ret == alias_ty || matches!(&f.ret, Ty::List(e) if matches!(&**e, Ty::Tuple(ts) if ts.len() == 2)) { Some((&alias_ty, alias_name.as_str())) } else { None })) } else { None };
             let sig = format!("fn {}({}) -> {}", f.name, f.params.iter().map(|p| show(&p.ty, &adts)).collect::<Vec<_>>().join(", "), show(&f.ret, &adts));
             exps.push(Expectation { module: mi, decl: f.decl, what: "function", ty: sig, is_function: true });
             body_items.push(Item { attrs: vec![], doc: vec![], kind: ItemKind::Func(Func { public: true, name: Ident::decl(f.name.clone(), f.decl), params, ret, body: Some(body) }) });
